@@ -3,7 +3,7 @@ import ast
 
 from sa.helpers import (the_return, mkflow, spec, code, one, calls, bind_call, param_env,
                         fmt, atom_of, unparse, walk_no_nested, unalloc, call_kw,
-                        loop_matches)
+                        loop_matches, guard_is)
 from sa.index import AnalysisError
 from sa.algebra import RF, Slice
 
@@ -74,6 +74,11 @@ def affine_len(fl, rf, N, allocs):
             return None
         return (n_a, n_b - lo + hi, off + lo)
     return None
+
+
+class _G:
+    def __init__(self, rf, positive):
+        self.rf, self.positive = rf, positive
 
 
 def run(ix, R):
@@ -185,74 +190,125 @@ def _run(ix, R):
                 hit = [a for a in x.all_atoms() if a in every]
                 if len(set(hit)) == 1:
                     allocs[nm] = every[hit[0]]
-        why = []
-        for nm, d in (('H', 0), ('g', 0), ('z', 1), ('deltaz', 1)):
-            if nm not in allocs or affine_len(fl, allocs[nm], N, {}) != (1, d, 0):
-                why.append('%s allocated as %s' % (nm, fmt(fl, allocs.get(nm))))
-        R.check('3.alloc', 'SHAPE', site, 'H, g have N entries, z and deltaz N+1 (N = number of layers = len(T))',
-                not why, key='; '.join(why), detail='; '.join(why), loc=f.loc())
         if len(allocs) != 4:
             raise AnalysisError('the returned tuple does not name four locally allocated arrays')
-        b = dict(pe, **allocs)
-        b['N'] = N
+        # what the caller receives: R_a[k] = work_a[k + r_a] * factor  (r_a = start of the slice that is returned, 0 if
+        # the whole array is).  Everything below is stated about R_a, so neither the length of a work array nor the
+        # base of the loop index is part of the rule.
+        fac = spec(fl, "conversion_factor('m', length_units)")
+        roff = {}
+        why_ret = []
+        for nm, x in zip(('z', 'H', 'g', 'deltaz'), ra0.args):
+            got = None
+            for r_ in range(0, 3):
+                cand = allocs[nm] if r_ == 0 else spec(fl, 'A[%d:]' % r_, {'A': allocs[nm]})
+                if fl.tab.equal(x, cand * fac):
+                    got = r_
+            if got is None:
+                why_ret.append('%s is returned as %s' % (nm, fmt(fl, x)))
+            roff[nm] = got
+        R.check('2.ret', 'ARG', site, 'returns (z, H, g, dz), each a work array (or its tail) times the length-unit factor',
+                not why_ret, key='; '.join(why_ret), detail='; '.join(why_ret), loc=f.loc(r.node))
+        if why_ret:
+            return
+        base = {allocs[k].single_atom(): affine_len(fl, allocs[k], N, {})[:2] if affine_len(fl, allocs[k], N, {}) else None
+                for k in allocs}
+        if any(v is None for v in base.values()):
+            like = []
+            for nm in allocs:
+                z_ = atom_of(fl, atom_of(fl, allocs[nm]).args[0])
+                if z_ is not None and z_.head == 'call' and z_.extra[0] in ('fn:zeros_like', 'fn:empty_like', 'fn:ones_like',
+                                                                           'fn:full_like'):
+                    like.append('%s = %s takes the dtype (and shape) of an input array: integer temperatures would '
+                                'truncate every value stored in it' % (nm, fmt(fl, allocs[nm])))
+            if like:
+                R.fail('3.alloc', 'SHAPE', site, 'work arrays are float arrays of N / N+1 entries', '; '.join(like),
+                       '; '.join(like), f.loc())
+                return
+            raise AnalysisError('length of a work array is not affine in the number of layers')
+        ra = ra0
+        ret_lens = [affine_len(fl, x, N, base) for x in ra.args]
+        R.check('3.retlen', 'SHAPE', site, 'returned lengths are (N+1, N, N, N) (N = number of layers = len(T))',
+                [l[:2] if l else None for l in ret_lens] == [(1, 1), (1, 0), (1, 0), (1, 0)], key=str(ret_lens),
+                detail='lengths/offsets %s' % ret_lens, loc=f.loc(r.node))
         sts = [e for e in fl.of('store')]
         lp_st = [e for e in sts if e.loops]
         lp = lp_st[0].loops[0] if lp_st else None
-        b['i'] = lp.index if lp is not None else fl.tab.name('i')
         why = []
+        if lp is None or lp.kind != 'range' or lp.range_args[2].const() != 1 or lp.range_args[0].const() is None or \
+                any(e.loops != (lp,) for e in lp_st):
+            raise AnalysisError('the integration is not one range() loop with a constant start')
+        lo = lp.range_args[0]
+        if not fl.tab.equal(lp.range_args[1] - lo, N):
+            why.append('the loop runs %s times, not once per layer' % fmt(fl, lp.range_args[1] - lo))
+        j = fl.tab.name('k')
+        Rn = {nm: fl.tab.name('R_' + nm) for nm in allocs}
+        by_atom = {allocs[nm].single_atom(): nm for nm in allocs}
+        ia = lp.index.single_atom()
 
-        def stores_to(tgt):
+        def to_R(rf):
+            """rf in terms of the layer index k (loop variable = k + start) and of the returned arrays"""
+            def f1(a, at, nargs):
+                if a == ia:
+                    return j + lo
+                return None
+            rf = fl.tab.rewrite(rf, f1)
+
+            def f2(a, at, nargs):
+                if at.head == 'idx' and len(nargs) == 2 and isinstance(nargs[0], RF) and nargs[0].single_atom() in by_atom \
+                        and isinstance(nargs[1], RF):
+                    nm = by_atom[nargs[0].single_atom()]
+                    return fl.tab.atom('idx', (Rn[nm], nargs[1] - roff[nm]))
+                return None
+            return fl.tab.rewrite(rf, f2)
+        b = dict(pe, k=j, N=N, **{'R_' + nm: Rn[nm] for nm in Rn})
+        b['z'], b['H'], b['g'], b['dz'] = Rn['z'], Rn['H'], Rn['g'], Rn['deltaz']
+        seen = []
+
+        def chk(tgt, want, guard=None, loop=True):
             t = spec(fl, tgt, b)
-            return [e for e in sts if e.target is not None and fl.tab.equal(e.target, t)]
-
-        def chk(tgt, want, guard=None):
-            es = stores_to(tgt)
+            es = [e for e in sts if e.target is not None and bool(e.loops) == loop and fl.tab.equal(to_R(e.target), t)]
             if len(es) != 1:
                 why.append('%s assigned %d times' % (tgt, len(es)))
                 return
             e = es[0]
-            if not fl.tab.equal(e.value, spec(fl, want, b)) or e.op is not None:
-                why.append('%s = %s (expected %s)' % (tgt, fmt(fl, e.value), want))
+            seen.append(e)
+            if not fl.tab.equal(to_R(e.value), spec(fl, want, b)) or e.op is not None:
+                why.append('%s = %s (expected %s)' % (tgt, fmt(fl, to_R(e.value)), want))
             gs = [g for g in e.guards if not (g.test is not None and isinstance(g.node, ast.With))]
             if guard is None and gs:
                 why.append('%s is conditional' % tgt)
-            if guard is not None and not (len(gs) == 1 and gs[0].positive and fl.tab.equal(gs[0].rf, spec(fl, guard, b))):
+            if guard is not None and not (len(gs) == 1 and gs[0].rf is not None and
+                                          guard_is(fl, _G(to_R(gs[0].rf), gs[0].positive), spec(fl, guard, b), True)):
                 why.append('%s under %s' % (tgt, [g.text() for g in gs]))
-        chk('g[0]', 'self.gravity')
-        chk('H[0]', 'KBOLTZ*T[0]/(mu[0]*g[0])')
-        chk('deltaz[i]', '-H[i-1]*log(Pl[i]/Pl[i-1])')
-        chk('z[i]', 'z[i-1] + deltaz[i]')
-        chk('g[i]', 'self.gravity_at_height(z[i])', 'i < N')
-        chk('H[i]', 'KBOLTZ*T[i]/(mu[i]*g[i])', 'i < N')
-        if lp is None or not loop_matches(fl, lp, '1', 'N+1', b):
-            why.append('loop %s' % (unparse(lp.iter_ast) if lp else None))
-        # order inside the loop: deltaz, z, g, H
-        order = []
-        for e in lp_st:
-            for nm in ('deltaz', 'z', 'g', 'H'):
-                if e.target is not None and fl.tab.equal(e.target, spec(fl, nm + '[i]', b)):
-                    order.append(nm + '[i]')
-                    break
-            else:
-                order.append(unparse(e.target_ast))
-        if order != ['deltaz[i]', 'z[i]', 'g[i]', 'H[i]']:
-            why.append('statement order %s' % order)
+        chk('g[0]', 'self.gravity', loop=False)
+        chk('H[0]', 'KBOLTZ*T[0]/(mu[0]*g[0])', loop=False)
+        chk('dz[k]', '-H[k]*log(Pl[k+1]/Pl[k])')
+        chk('z[k+1]', 'z[k] + dz[k]')
+        chk('g[k+1]', 'self.gravity_at_height(z[k+1])', 'k + 1 < N')
+        chk('H[k+1]', 'KBOLTZ*T[k+1]/(mu[k+1]*g[k+1])', 'k + 1 < N')
+        # order inside the loop: dz, z, g, H (each reads what the one before it has just written)
+        order = [e for e in lp_st if e in seen]
+        if len(seen) == 6 and [id(e) for e in order] != [id(e) for e in seen[2:]]:
+            why.append('statement order %s' % [unparse(e.target_ast) for e in order])
+        extra = [e for e in sts if e not in seen and e.target is not None and
+                 any(a in by_atom for a in e.target.all_atoms())]
+        if extra and not why:
+            why.append('also writes %s' % [unparse(e.target_ast) for e in extra])
         R.check('2.hydro', 'ALG', site,
-                'dz_i = -H_{i-1} log(P_i/P_{i-1}); z_i = z_{i-1} + dz_i; g_i = g(z_i), H_i = k T_i/(mu_i g_i) '
-                'for i < N; z_0 = 0; g_0 = surface gravity; i = 1..N',
+                'with k the layer index and the arrays as returned: dz_k = -H_k log(P_{k+1}/P_k); z_{k+1} = z_k + dz_k; '
+                'g_{k+1} = g(z_{k+1}), H_{k+1} = k_B T_{k+1}/(mu_{k+1} g_{k+1}) for k+1 < N; z_0 = 0; g_0 = surface gravity; '
+                'k = 0..N-1',
                 not why, key='; '.join(why), detail='; '.join(why), loc=f.loc())
-        r = the_return(fl)
-        fac = spec(fl, "conversion_factor('m', length_units)")
-        want = fl.tab.atom('tuple', (allocs['z'] * fac, allocs['H'] * fac, allocs['g'] * fac,
-                                     spec(fl, 'deltaz[1:]', b) * fac))
-        R.check('2.ret', 'ARG', site, 'returns (z, H, g, deltaz[1:]) each times the length-unit factor',
-                fl.tab.equal(r.value, want), key=fmt(fl, r.value), detail=fmt(fl, r.value), loc=f.loc(r.node))
-        ra = atom_of(fl, r.value)
-        base = {allocs[k].single_atom(): affine_len(fl, allocs[k], N, {})[:2] for k in allocs}
-        ret_lens = [affine_len(fl, x, N, base) for x in ra.args] if ra is not None else None
-        R.check('3.retlen', 'SHAPE', site, 'returned lengths are (N+1, N, N, N) with offsets (0, 0, 0, 1)',
-                ret_lens == [(1, 1, 0), (1, 0, 0), (1, 0, 0), (1, 0, 1)], key=str(ret_lens),
-                detail='lengths/offsets %s' % ret_lens, loc=f.loc(r.node))
+        # every work array is zero-initialised and long enough for what is returned of it
+        why = []
+        for nm, d in (('H', 0), ('g', 0), ('z', 1), ('deltaz', 0)):
+            L = affine_len(fl, allocs[nm], N, {})
+            if L is None or (L[0], L[1] - roff[nm]) != (1, d):
+                why.append('%s allocated as %s, returned from element %d' % (nm, fmt(fl, allocs[nm]), roff[nm]))
+        R.check('3.alloc', 'SHAPE', site, 'H, g, dz are returned with N entries, z with N+1 (N = number of layers = len(T))',
+                not why, key='; '.join(why), detail='; '.join(why), loc=f.loc())
+        ret_lens = [l[:2] + (0,) if l else None for l in ret_lens]
     for nm, want in (('gravity_at_height', 'G*self.fullMass/(self.fullRadius + h)**2'),
                      ('gravity', 'G*self.fullMass/self.fullRadius**2')):
         site = PL + '::BasePlanet.' + nm
@@ -297,7 +353,7 @@ def _run(ix, R):
         offs = {k: ret_lens[k][2] for k in range(4)}
         N = fl.tab.name('N')
         want = {'self.altitude_profile': ((1, 0), 0, 'altitude'), 'self.scaleheight_profile': ((1, 0), 0, 'scale height'),
-                'self.gravity_profile': ((1, 0), 0, 'gravity'), 'self.deltaz': ((1, 0), 1, 'layer thickness'),
+                'self.gravity_profile': ((1, 0), 0, 'gravity'), 'self.deltaz': ((1, 0), 0, 'layer thickness'),
                 'self.altitude_boundaries': ((1, 1), 0, 'altitude boundaries')}
         src_idx = {'self.altitude_profile': 0, 'self.scaleheight_profile': 1, 'self.gravity_profile': 2,
                    'self.deltaz': 3, 'self.altitude_boundaries': 0}
